@@ -544,15 +544,20 @@ def r13(e: Engine, rep: Report):
                   'bounced', loc=n.loc(),
                   reason='dominated by `wait is None` and by the bounce loop')
     # granted-retry side: events on every path from the F edge
-    tests = [n for n in g.of_kind('test')
-             if atoms_of_test(n.ast, True, n.frame) == [wait_atom]]
+    # (spelled `wait is None` or `wait is not None`: the granted side is
+    # the edge on which the wait is known not to be None)
+    neg_atom = (not wait_atom[0], wait_atom[1])
+    tests = [(n, 'F') for n in g.of_kind('test')
+             if atoms_of_test(n.ast, True, n.frame) == [wait_atom]] + \
+            [(n, 'T') for n in g.of_kind('test')
+             if atoms_of_test(n.ast, True, n.frame) == [neg_atom]]
     if not tests:
         rep.error('anchor vanished: `wait is None` test in _retry_later')
     after = dataflow.must_events_after(g, ev, edge=c07.no_call_exc)
     may_after = _may_events_from(g, ev)
-    for t in tests:
+    for t, granted in tests:
         for l, s in t.succ:
-            if l != 'F':
+            if l != granted:
                 continue
             rep.evaluations += 1
             st = after.get(s.id)
